@@ -157,9 +157,15 @@ def index_check(case):
         X = labelled(R, C, case["entries"])
         exp = expected_matrix(X, rd, cd, perm, case["row_only"], case["inv"])
         arg = sparse.csr_matrix(X) if case["storage"] == "csr" else X
-        got, exc = call(permute_systems, arg, list(perm), make_dim_arg(case), case["row_only"], case["inv"])
+        perm_arg = np.array(perm) if case["dimform"] == "ndarray" else list(perm)
+        dim_arg = make_dim_arg(case)
+        dim_snap = None if dim_arg is None else np.asarray(dim_arg).tolist()
+        x_snap = X.copy()
+        got, exc = call(permute_systems, arg, perm_arg, dim_arg, case["row_only"], case["inv"])
         if exc is not None:
             return viol("permute_systems raised on an in-domain configuration: " + exc_text(exc), site="permute_systems:exception")
+        if list(np.asarray(perm_arg).tolist()) != list(perm) or (dim_arg is not None and np.asarray(dim_arg).tolist() != dim_snap) or not same(X, x_snap):
+            return viol("permute_systems modified one of the caller's arguments (perm / dim / input)", site="permute_systems:aliasing")
         if sparse.issparse(got):
             got = got.toarray()
         if not same(got, exp):
@@ -306,8 +312,9 @@ def swap_cases(tier, seed):
                         forms.append("omitted")
                     for form in forms:
                         for row_only in ((False, True) if kind == "mat" else (False,)):
-                            yield {"rdims": rd, "cdims": cd if kind == "mat" else None, "sys": [a, b], "kind": kind,
-                                   "dimform": form, "row_only": row_only}
+                            for sysform in ("list", "ndarray"):
+                                yield {"rdims": rd, "cdims": cd if kind == "mat" else None, "sys": [a, b], "kind": kind,
+                                       "dimform": form, "row_only": row_only, "sysform": sysform}
     # default sys (omitted) on bipartite inputs
     for d1, d2 in itertools.product((1, 2, 3), repeat=2):
         if d1 * d2 >= 2:
@@ -331,22 +338,37 @@ def swap_check(case):
         dim = int(rd[0])
     else:
         dim = None
+    sys_arg = sys_
+    if sys_ is not None and case.get("sysform") == "ndarray":
+        sys_arg = np.array(sys_)
+    dim_arg = np.array(dim) if (isinstance(dim, list) and case.get("sysform") == "ndarray") else dim
+    snap = (None if sys_arg is None else list(np.asarray(sys_arg).tolist()), None if dim_arg is None else np.asarray(dim_arg).tolist())
     if kind == "mat":
         X = labelled(R, ti.prod(cd), "complex")
         exp = expected_matrix(X, rd, cd, perm, case["row_only"], False)
-        got, exc = call(swap, X, sys_, dim, case["row_only"]) if sys_ is not None else call(swap, X, None, dim)
+        arg0 = X
     else:
         v = labelled(R, None, "complex")
         exp = v[ti.gather_for_perm(rd, perm)]
-        got, exc = call(swap, v if kind == "vec1d" else v.reshape(-1, 1), sys_, dim)
-    if exc is not None:
-        return viol("swap raised on an in-domain configuration: " + exc_text(exc), site="swap:exception:" + form)
-    g = np.asarray(got)
-    if kind != "mat":
-        g = g.ravel()
-    if not same(g, exp):
-        return viol("swap is not the transposition special case of permute_systems' reference", site="swap:value:" + form)
-    return ok(len(set(rd)) > 1 or n > 2)
+        arg0 = v if kind == "vec1d" else v.reshape(-1, 1)
+    x_snap = arg0.copy()
+    for attempt in (1, 2):  # the same argument objects are passed twice: a call must not consume or alter its arguments
+        if kind == "mat":
+            got, exc = call(swap, arg0, sys_arg, dim_arg, case["row_only"]) if sys_ is not None else call(swap, arg0, None, dim_arg)
+        else:
+            got, exc = call(swap, arg0, sys_arg, dim_arg)
+        if exc is not None:
+            return viol(f"swap raised on an in-domain configuration (call {attempt} with the same arguments): " + exc_text(exc),
+                        site="swap:exception:" + form)
+        g = np.asarray(got)
+        if kind != "mat":
+            g = g.ravel()
+        if not same(g, exp):
+            return viol(f"swap is not the transposition special case of permute_systems' reference (call {attempt})", site="swap:value:" + form)
+        now = (None if sys_arg is None else list(np.asarray(sys_arg).tolist()), None if dim_arg is None else np.asarray(dim_arg).tolist())
+        if now != snap or not same(arg0, x_snap):
+            return viol("swap modified one of the caller's arguments (sys / dim / input)", site="swap:aliasing", observed=now, expected=snap)
+    return ok(len(set(rd)) > 1 or n > 2, calls=2)
 
 
 # ------------------------------------------------------------------------------------------------ C01.operators
